@@ -137,6 +137,10 @@ func (s *symPath) leaves(v ssa.Value) map[string]bool {
 			return
 		}
 		seen[v] = true
+		if src, ok := s.loads[v]; ok {
+			walk(src, d+1)
+			return
+		}
 		switch x := v.(type) {
 		case *ssa.Parameter:
 			out[x.Name()] = true
@@ -306,6 +310,8 @@ type symPath struct {
 	ints    map[string]Lin
 	mapVer  map[string]int
 	lookVer map[ssa.Value]int
+	cells   map[*ssa.Alloc]ssa.Value // last value stored into a local cell on this path
+	loads   map[ssa.Value]ssa.Value  // load instruction -> the value it read from a local cell
 	sum     PathSummary
 }
 
@@ -406,7 +412,8 @@ func Summarize(cfg *SymConfig) []PathSummary {
 		}
 	}
 	st := &symPath{cfg: cfg, pred: map[*ssa.BasicBlock]*ssa.BasicBlock{}, env: map[ssa.Value]Lin{},
-		ints: map[string]Lin{}, mapVer: map[string]int{}, lookVer: map[ssa.Value]int{}}
+		ints: map[string]Lin{}, mapVer: map[string]int{}, lookVer: map[ssa.Value]int{},
+		cells: map[*ssa.Alloc]ssa.Value{}, loads: map[ssa.Value]ssa.Value{}}
 	st.sum.Assigns = map[string]string{}
 	walk(start, nil, st, map[*ssa.BasicBlock]bool{})
 	return out
@@ -414,7 +421,14 @@ func Summarize(cfg *SymConfig) []PathSummary {
 
 func (s *symPath) fork() *symPath {
 	n := &symPath{cfg: s.cfg, pred: map[*ssa.BasicBlock]*ssa.BasicBlock{}, env: map[ssa.Value]Lin{},
-		ints: map[string]Lin{}, mapVer: map[string]int{}, lookVer: map[ssa.Value]int{}}
+		ints: map[string]Lin{}, mapVer: map[string]int{}, lookVer: map[ssa.Value]int{},
+		cells: map[*ssa.Alloc]ssa.Value{}, loads: map[ssa.Value]ssa.Value{}}
+	for k, v := range s.cells {
+		n.cells[k] = v
+	}
+	for k, v := range s.loads {
+		n.loads[k] = v
+	}
 	for k, v := range s.pred {
 		n.pred[k] = v
 	}
@@ -473,6 +487,11 @@ func (s *symPath) step(in ssa.Instruction) {
 	switch x := in.(type) {
 	case *ssa.UnOp:
 		if x.Op == token.MUL {
+			if al, ok := x.X.(*ssa.Alloc); ok {
+				if v, has := s.cells[al]; has {
+					s.loads[x] = v
+				}
+			}
 			if name, ok := s.trackedInt(x.X); ok {
 				cur, has := s.ints[name]
 				if !has {
@@ -482,6 +501,9 @@ func (s *symPath) step(in ssa.Instruction) {
 			}
 		}
 	case *ssa.Store:
+		if al, ok := x.Addr.(*ssa.Alloc); ok {
+			s.cells[al] = x.Val
+		}
 		if name, ok := s.trackedInt(x.Addr); ok {
 			l := s.lin(x.Val)
 			base := LinAtom("$" + name)
@@ -535,6 +557,9 @@ func (s *symPath) step(in ssa.Instruction) {
 func (s *symPath) lin(v ssa.Value) Lin {
 	if l, ok := s.env[v]; ok {
 		return l
+	}
+	if src, ok := s.loads[v]; ok {
+		return s.lin(src)
 	}
 	switch x := v.(type) {
 	case *ssa.Const:
@@ -606,6 +631,9 @@ func (s *symPath) term(v ssa.Value) string {
 	}
 	if l, ok := s.env[v]; ok {
 		return l.String()
+	}
+	if src, ok := s.loads[v]; ok {
+		return s.term(src)
 	}
 	switch x := v.(type) {
 	case *ssa.Const:
@@ -731,6 +759,9 @@ func (s *symPath) term(v ssa.Value) string {
 }
 
 func (s *symPath) addCond(c ssa.Value, neg bool) {
+	if src, ok := s.loads[c]; ok {
+		c = src
+	}
 	for {
 		if u, ok := c.(*ssa.UnOp); ok && u.Op == token.NOT {
 			c = u.X
